@@ -15,6 +15,7 @@ import Driver.Settle
 import Driver.Ledger
 import Driver.Lifecycle
 import Driver.Cover
+import Driver.Tbr
 import Driver.Oracle
 import Driver.Claim
 open Driver
@@ -43,6 +44,7 @@ def dispatch (fam : String) : Option (List String → String → Option Res) :=
   | "settle" => some runSettle
   | "lifecycle" => some runLifecycle
   | "coversettle" => some runCover
+  | "tbrsplit" => some runTbr
   | "ledgerslash" => some runLedger
   | "ledgerhist" => some runLedger
   | "apphash" => some runAppHash
